@@ -24,7 +24,7 @@ from ..guards import (G, TRUE, FALSE, g_and, g_not, g_or, g_equiv, g_implies, g_
 from ..gvn import Frame, Obj, PW, Vec, cases_of, veq, mk_pw, Unsupported, lift
 from ..intervals import single_atom
 from . import rdp_model as rm
-from .common import RuleCtx, _short, split_at_loop, range_args, stored_names
+from .common import RuleCtx, _short, split_at_loop, range_args, stored_names, returned_names
 
 C = Rat.const
 METRICS = ["r2", "rmspe", "rmsle", "rpd", "smape"]
@@ -173,8 +173,8 @@ def _r2_threshold(rc: RuleCtx, m: rm.LoopModel, mname: str):
         res.violation("R2", m.fi.module, m.fi.name, m.loop, "the two children are not pushed under the same condition", construct="push guards differ")
         return
     split = gp[0] if gp else FALSE
-    red = m.appends("reduced")
-    rem = m.appends("removed")
+    red = m.appends(m.retained) if m.retained else []
+    rem = m.appends(m.removed) if m.removed else []
     lo, hi = count_true([split] + [e.guard for e in red])
     ok = (lo, hi) == (1, 1) and len(red) == 1 and len(rem) == 1 and g_equiv(red[0].guard, rem[0].guard)
     if ok and isinstance(red[0].args[0], Rat) and red[0].args[0].equals(m.left):
@@ -209,16 +209,18 @@ def _r3_threshold(rc: RuleCtx, m: rm.LoopModel):
     ev = m.ev
     fr = Frame(ev, fi, 0)
     env = dict(m.env_pre)
-    env["reduced"] = Vec([], "list")
-    env["removed"] = Vec([], "list")
+    if m.retained:
+        env[m.retained] = Vec([], "list")
+    if m.removed:
+        env[m.removed] = Vec([], "list")
     fr.block(m.post, env, TRUE)
-    apps = [e for e in fr.events if e.kind == "append" and e.target == "reduced"]
+    apps = [e for e in fr.events if e.kind == "append" and e.target == m.retained]
     if len(apps) == 1 and apps[0].guard.kind == "true" and isinstance(apps[0].args[0], Rat) and apps[0].args[0].equals(sym("n") - C(1)):
         res.ok("R2", "rdp.rdp:last", "exactly one reduced.append(len(points) - 1) after the loop")
     else:
         res.violation("R2", fi.module, fi.name, fi.node, "the last index n-1 is not appended exactly once after the loop",
                       str([_short(e.args[0], 40) for e in apps]), "[len(points) - 1]", construct="final index")
-    seed = m.env_pre.get("stack")
+    seed = m.env_pre.get(m.stack)
     if isinstance(seed, Vec) and len(seed.items) == 1 and isinstance(seed.items[0], Vec) and len(seed.items[0].items) == 2 \
             and seed.items[0].items[0].is_zero() and seed.items[0].items[1].equals(sym("n")):
         res.ok("R2", "rdp.rdp:seed", "work stack seeded with the whole curve (0, n)")
@@ -228,7 +230,7 @@ def _r3_threshold(rc: RuleCtx, m: rm.LoopModel):
 
 def _r2_fixed(rc: RuleCtx, m: rm.LoopModel, tag: str):
     res = rc.res
-    apps = m.appends("reduced")
+    apps = m.appends(m.retained) if m.retained else []
     lo, hi = count_true([e.guard for e in apps])
     if (lo, hi) != (1, 1):
         res.violation("R2", m.fi.module, m.fi.name, m.loop, f"{tag}: the number of indices retained per iteration ranges over [{lo}, {hi}], not exactly 1",
@@ -255,9 +257,9 @@ def _r3_sorted(rc: RuleCtx, mf: rm.LoopModel, mg: rm.LoopModel):
     fr = Frame(mf.ev, fi, 0)
     env = dict(mf.env_pre)
     fr.block(mf.post, env, TRUE)
-    sorts = [e for e in fr.events if e.kind == "sort" and e.target == "reduced" and e.guard.kind == "true" and _ascending(e.node)]
-    rets = [st for st in mf.post if isinstance(st, ast.Return)]
-    if sorts and len(rets) == 1 and isinstance(rets[0].value, ast.Name) and rets[0].value.id == "reduced":
+    sorts = [e for e in fr.events if e.kind == "sort" and e.target == mf.retained and e.guard.kind == "true" and _ascending(e.node)]
+    rn = returned_names(mf.post)
+    if sorts and rn is not None and mf.retained in rn:
         res.ok("R3", "rdp._rdp_fixed", "reduced.sort() (ascending) on every path to the return")
     else:
         res.violation("R3", fi.module, fi.name, fi.node, "the retained indices are not sorted ascending before being returned",
@@ -265,15 +267,15 @@ def _r3_sorted(rc: RuleCtx, mf: rm.LoopModel, mg: rm.LoopModel):
     # _grdp: sort after the insertion, before the cost evaluation; returns reduced
     evs = mg.events
     pos = {id(e): k for k, e in enumerate(evs)}
-    app = [e for e in evs if e.kind == "append" and e.target == "reduced"]
-    srt = [e for e in evs if e.kind == "sort" and e.target == "reduced" and _ascending(e.node)]
+    app = [e for e in evs if e.kind == "append" and e.target == mg.retained]
+    srt = [e for e in evs if e.kind == "sort" and e.target == mg.retained and _ascending(e.node)]
     cst = [e for e in evs if e.kind == "call" and e.target == "evaluation.compute_global_cost"]
     ok = bool(app and srt and cst) and all(pos[id(a)] < pos[id(s)] for a in app for s in srt[:1]) and all(pos[id(srt[0])] < pos[id(c)] for c in cst)
     if ok and srt[0].guard.kind == "true":
         res.ok("R3", "rdp._grdp", "reduced.sort() after every insertion and before the global cost is evaluated")
     else:
         res.violation("R3", mg.fi.module, mg.fi.name, mg.loop, "the retained set is not sorted after each insertion (before the cost evaluation / return)",
-                      str([(e.kind, e.target) for e in evs if e.target in ("reduced", "evaluation.compute_global_cost")]),
+                      str([(e.kind, e.target) for e in evs if e.target in (mg.retained, "evaluation.compute_global_cost")]),
                       "append; sort; compute_global_cost", construct="sort after insertion")
 
 
@@ -343,7 +345,7 @@ def _seeds(rc: RuleCtx):
 
 def _r4(rc: RuleCtx, m: rm.LoopModel):
     res = rc.res
-    rem = m.appends("removed")
+    rem = m.appends(m.removed) if m.removed else []
     L = m.L
     ok = False
     if len(rem) == 1 and isinstance(rem[0].args[0], Vec) and len(rem[0].args[0].items) == 2:
@@ -369,25 +371,30 @@ def _r4(rc: RuleCtx, m: rm.LoopModel):
     lo = fr.expr(ra[0], env) if ra and len(ra) == 2 else None
     hi = fr.expr(ra[1], env) if ra and len(ra) == 2 else None
     at = lambda x, i: anf.opaque("at", x, i, array=False)  # noqa: E731
-    good = isinstance(lo, Rat) and lo.is_const() == 1 and isinstance(hi, Rat) and hi.equals(sym("R")) \
-        and isinstance(env.get("left"), Rat) and env["left"].equals(at(red, C(0)))
-    i = ev.symbol(loop.target.id)
-    benv = dict(env)
-    benv[loop.target.id] = i
-    benv["left"] = ev.symbol("left")
-    benv["removed"] = ev.symbol("removed@list")
-    out = ev.eval_loop_body(fi, loop, benv)
-    right = at(red, i)
-    rows = [e for e in out.events if e.kind == "append" and e.target == "removed"]
-    if good and len(rows) == 1 and rows[0].guard.kind == "true" and isinstance(rows[0].args[0], Vec) and len(rows[0].args[0].items) == 2:
-        a, b = rows[0].args[0].items
-        want = right - sym("left") - C(1)
-        if isinstance(a, Rat) and a.equals(sym("left")) and isinstance(b, Rat) and b.equals(want) \
-                and isinstance(out.env.get("left"), Rat) and out.env["left"].equals(right):
-            res.ok("R4", "rdp.compute_removed_points", "one row [left, next - left - 1] per consecutive retained pair")
-            # agreement with rdp(): right_exclusive = next + 1  =>  (right_e - left) - 2 == next - left - 1
-            res.ok("R4", "rdp.rdp~compute_removed_points", "both tables use the linear form next_retained - left - 1")
-            return
+    lefts = [n for n, v in env.items() if isinstance(v, Rat) and v.equals(at(red, C(0)))]
+    outs = [n for n, v in env.items() if isinstance(v, Vec) and v.kind == "list" and not v.items]
+    good = isinstance(lo, Rat) and lo.is_const() == 1 and isinstance(hi, Rat) and hi.equals(sym("R")) and len(lefts) == 1 and len(outs) == 1
+    if good:
+        lname, oname = lefts[0], outs[0]
+        i = ev.symbol(loop.target.id)
+        benv = dict(env)
+        benv[loop.target.id] = i
+        benv[lname] = ev.symbol(lname)
+        benv[oname] = ev.symbol(oname + "@list")
+        out = ev.eval_loop_body(fi, loop, benv)
+        right = at(red, i)
+        rows = [e for e in out.events if e.kind == "append" and e.target == oname]
+        if len(rows) == 1 and rows[0].guard.kind == "true" and isinstance(rows[0].args[0], Vec) and len(rows[0].args[0].items) == 2:
+            a, b = rows[0].args[0].items
+            want = right - sym(lname) - C(1)
+            if isinstance(a, Rat) and a.equals(sym(lname)) and isinstance(b, Rat) and b.equals(want) \
+                    and isinstance(out.env.get(lname), Rat) and out.env[lname].equals(right):
+                res.ok("R4", "rdp.compute_removed_points", "one row [left, next - left - 1] per consecutive retained pair")
+                # agreement with rdp(): right_exclusive = next + 1  =>  (right_e - left) - 2 == next - left - 1
+                res.ok("R4", "rdp.rdp~compute_removed_points", "both tables use the linear form next_retained - left - 1")
+                return
+    else:
+        rows = []
     res.violation("R4", fi.module, fi.name, loop, "compute_removed_points does not emit one row [left, next - left - 1] per consecutive retained pair",
                   str([str(e.args[0]) for e in rows]), "[left, reduced[i] - left - 1]; left <- reduced[i]", construct="removed row crp")
 
@@ -417,7 +424,8 @@ def _r5(rc: RuleCtx):
                 pre.append(st)
             fr.block([st for st in pre if not (isinstance(st, ast.Assign) and isinstance(st.value, ast.Call)
                                                and ast.unparse(st.value.func) in ("_rdp_fixed", "_grdp"))], env, TRUE)
-            dp = env.get("distance_points")
+            cands = [v for k_, v in env.items() if isinstance(v, Obj) and v.tag == "func" and str(v.val).startswith("linear_fit.")]
+            dp = cands[0] if len(cands) == 1 else None
             if isinstance(dp, Obj) and dp.tag == "func":
                 callees.add(dp.val)
                 res.ok("R5", f"rdp.{name}[Distance.{member}]", f"selects {dp.val}")
